@@ -504,6 +504,86 @@ def inline_expression_helpers(repo) -> List[str]:
     return done
 
 
+def inline_model_handles(repo) -> List[str]:
+    """`wellbores = model.wellbores` (a local bound once to a part of the model object passed in as `model`) is that part: every read of the
+    local becomes `model.wellbores`.  Exact because the parts of a Model are bound in Model.__init__ only (verified here on every run: any
+    store to such an attribute outside the Model class disables the pass) and Model.read_parameters, which run before and not during any
+    component function; handles inside Model's own methods, and in functions that call read_parameters on their model, are left alone."""
+    done: List[str] = []
+    models = [ci for lst in repo.classes.values() for ci in lst if ci.name == 'Model' and ci.module.rel.endswith('geophires_x/Model.py')]
+    if len(models) != 1 or '__init__' not in models[0].methods:
+        return done
+    mdl = models[0]
+    init = mdl.methods['__init__'].node
+    me = init.args.args[0].arg if init.args.args else 'self'
+    roles = {t.attr for st in ast.walk(init) if isinstance(st, (ast.Assign, ast.AnnAssign))
+             for t in (st.targets if isinstance(st, ast.Assign) else [st.target])
+             if isinstance(t, ast.Attribute) and isinstance(t.value, ast.Name) and t.value.id == me}
+    roles -= {'logger'}
+    if not roles:
+        return done
+    # soundness: nobody outside the Model class binds model.<part>
+    model_fns = {id(m.node) for m in mdl.methods.values()}
+    for mi in repo.modules.values():
+        for fn in ast.walk(mi.tree):
+            if not isinstance(fn, (ast.FunctionDef, ast.AsyncFunctionDef)) or id(fn) in model_fns:
+                continue
+            for n in ast.walk(fn):
+                if isinstance(n, ast.Attribute) and isinstance(n.ctx, (ast.Store, ast.Del)) and n.attr in roles and isinstance(n.value, ast.Name) \
+                        and n.value.id == 'model':
+                    return done
+    for mi in repo.modules.values():
+        touched = False
+        for fn in [x for x in ast.walk(mi.tree) if isinstance(x, (ast.FunctionDef, ast.AsyncFunctionDef))]:
+            params = {a.arg: a for a in fn.args.args + fn.args.kwonlyargs}
+            bases = {k for k, a in params.items() if k == 'model' or (a.annotation is not None and 'Model' in ast.unparse(a.annotation).split('.')[-1:])}
+            if not bases or id(fn) in model_fns:
+                continue
+            if any(isinstance(c, ast.Call) and isinstance(c.func, ast.Attribute) and c.func.attr in ('read_parameters', '__init__')
+                   and isinstance(c.func.value, ast.Name) and c.func.value.id in bases for c in ast.walk(fn)):
+                continue
+            stores: Dict[str, int] = {}
+            for n in ast.walk(fn):
+                if isinstance(n, ast.Name) and isinstance(n.ctx, (ast.Store, ast.Del)):
+                    stores[n.id] = stores.get(n.id, 0) + 1
+                if isinstance(n, (ast.Global, ast.Nonlocal)):
+                    for nm in n.names:
+                        stores[nm] = 99
+            handles: Dict[str, ast.AST] = {}
+            for st in ast.walk(fn):
+                tgt = val = None
+                if isinstance(st, ast.Assign) and len(st.targets) == 1 and isinstance(st.targets[0], ast.Name):
+                    tgt, val = st.targets[0].id, st.value
+                elif isinstance(st, ast.AnnAssign) and isinstance(st.target, ast.Name) and st.value is not None:
+                    tgt, val = st.target.id, st.value
+                if tgt is None or stores.get(tgt) != 1 or tgt in params:
+                    continue
+                if isinstance(val, ast.Attribute) and isinstance(val.value, ast.Name) and val.value.id in bases and val.attr in roles \
+                        and stores.get(val.value.id, 0) == 0:
+                    handles[tgt] = val
+            if not handles:
+                continue
+
+            class H(ast.NodeTransformer):
+                def visit_Name(self, n):
+                    if isinstance(n.ctx, ast.Load) and n.id in handles:
+                        new = clone(handles[n.id])
+                        for x in ast.walk(new):
+                            for attr in ('lineno', 'col_offset', 'end_lineno', 'end_col_offset'):
+                                if hasattr(n, attr):
+                                    setattr(x, attr, getattr(n, attr))
+                        return new
+                    return n
+            H().visit(fn)
+            touched = True
+            owner = next((c.name + '.' for c in mi.classes.values() if any(fn is m.node for m in c.methods.values())), '')
+            done.append(f'{owner}{fn.name}: ' + ', '.join(f'{k} = {ast.unparse(v)}' for k, v in sorted(handles.items())))
+        if touched:
+            ast.fix_missing_locations(mi.tree)
+            set_parents(mi.tree)
+    return done
+
+
 class _ModuleBody:
     """The top-level code of a module as a caller."""
     def __init__(self, mi):
